@@ -9,6 +9,8 @@ removed afterwards) and the checks are run on the copy; nothing of the package i
   seeded/<name>/          the check of the seed's own property must exit 1 (a VIOLATION);
                           exit 2 (undecided) and exit 0 (silent) are listed
   selftest/benign/<name>/ all twenty checks must exit 0; exit 1 is a false alarm, exit 2 an undecided anchor
+  A patch whose meta.json carries "superseded_by" (it was made before a later `fix:` commit rewrote the lines it touches)
+  and that no longer applies is counted as superseded, not as a failure.
 
 This is a tool for working on the rules (the numbers in DESIGN.md sections 13 and 14 come from it and from
 tools/eval_seed.py / tools/eval_benign.py, which also run the demonstrations); it is not one of the registered checks.
@@ -55,6 +57,9 @@ def one(args):
                 shutil.copytree(os.path.join(repo, extra), os.path.join(d, extra))
         r = subprocess.run(["patch", "-p1", "-s", "-i", os.path.join(path, "patch.diff")], cwd=d, capture_output=True, text=True)
         if r.returncode != 0:
+            if meta.get("superseded_by"):
+                # made against a tree before a later `fix:` commit that rewrote the same lines
+                return {"kind": kind, "name": name, "property": prop, "status": "superseded", "first": "superseded by fix " + meta["superseded_by"]}
             return {"kind": kind, "name": name, "property": prop, "status": "patch-does-not-apply"}
         if kind == "seed":
             rc, first = run_check(prop, d)
@@ -95,12 +100,12 @@ def main():
         tally[r["kind"]][r["status"]] += 1
     for r in results:
         want = "detected" if r["kind"] == "seed" else "silent"
-        if r["status"] != want:
+        if r["status"] not in (want, "superseded"):
             print("%-7s %-12s %-10s %s" % (r["kind"], r["name"], r["status"], "; ".join(r["first"]) if isinstance(r.get("first"), list) else r.get("first", "")))
     print(json.dumps(tally, sort_keys=True))
     if "--write" in argv:
         with open(os.path.join(VERIF, "selftest", "REPLAY.json"), "w") as fh:
-            json.dump({"tally": tally, "not_as_wanted": [r for r in results if r["status"] != ("detected" if r["kind"] == "seed" else "silent")]}, fh, indent=1, sort_keys=True)
+            json.dump({"tally": tally, "not_as_wanted": [r for r in results if r["status"] not in ("detected" if r["kind"] == "seed" else "silent", "superseded")]}, fh, indent=1, sort_keys=True)
             fh.write("\n")
     return 0
 
